@@ -14,6 +14,17 @@ EXTRA = {"C02-mutant-a": ["C05"], "C02-mutant-b": ["C15"], "C03-mutant-a": ["C10
 RACE_DEMO = {"C16-mutant-b"}
 REBASED = {"C01-mutant-b": "/tmp/rebased/C01-mutant-b/patch.diff", "C04-mutant-a": "/tmp/rebased/C04-mutant-a/patch.diff"}
 
+ROUND = os.environ.get("SEED_ROUND", "")
+if ROUND == "r2":
+    PKG = {"C06": "sourceaddrs", "C07": "sourceaddrs", "C11": "sourceaddrs", "C08": "sourcebundle", "C09": "sourcebundle", "C10": "sourcebundle",
+           "C12-mutant-b": "sourcebundle", "C13": "sourcebundle", "C14": "sourcebundle", "C17": "sourcebundle", "C18": "sourcebundle", "C19-mutant-a": "sourceaddrs"}
+    EXTRA = {"C18-mutant-a": ["C07", "C06"], "C20-mutant-b": ["C12"], "C13-mutant-b": ["C08", "C14"], "C08-mutant-a": ["C14", "C13"], "C16-mutant-b": ["C20", "C03"], "C16-mutant-a": ["C05"],
+             "C05-mutant-b": ["C16"], "C04-mutant-b": ["C05"], "C12-mutant-a": ["C01"], "C03-mutant-a": ["C05"], "C03-mutant-b": ["C10"], "C08-mutant-b": ["C17"], "C13-mutant-a": ["C17"],
+             "C17-mutant-a": ["C13", "C14"], "C09-mutant-a": ["C03"], "C09-mutant-b": ["C18"], "C10-mutant-a": ["C13"], "C15-mutant-b": ["C02"], "C02-mutant-a": ["C15", "C05"], "C02-mutant-b": ["C15", "C19"],
+             "C06-mutant-b": ["C19"], "C11-mutant-a": ["C06"], "C11-mutant-b": ["C06"], "C14-mutant-a": ["C08"], "C14-mutant-b": ["C08"], "C01-mutant-a": ["C15", "C04"], "C01-mutant-b": ["C15", "C19"], "C19-mutant-a": ["C06", "C07"], "C19-mutant-b": ["C05"]}
+    RACE_DEMO = set()
+    REBASED = {}
+
 def sh(cmd, cwd=None, timeout=1800):
     p = subprocess.run(cmd, shell=True, cwd=cwd, env=ENV, capture_output=True, text=True, timeout=timeout)
     return p.returncode, p.stdout + p.stderr
@@ -54,7 +65,7 @@ def main():
             ok = suite and without == 0 and withp != 0
             rows.append((key, "confirmed" if ok else f"NOT CONFIRMED suite={suite} demo_without={without} demo_with={withp}", caught))
             if ok:
-                out_dir = f"/verif/seeded/{key}"
+                out_dir = f"/verif/seeded/{key}" if not ROUND else f"/verif/seeded/{prop}-{ROUND}-{m}"
                 os.makedirs(out_dir, exist_ok=True)
                 shutil.copy(patch, f"{out_dir}/patch.diff")
                 if key in REBASED: shutil.copy(f"{d}/patch.diff", f"{out_dir}/patch.as-delivered.diff")
